@@ -19,7 +19,7 @@
 (* every history of MaxSteps actions from every initial configuration;      *)
 (* -simulate: walks). Each history is replayed on a real RateLimitHandler   *)
 (* with real rule sets; after every request the RateLimiterResult (type,    *)
-(* description, burst of the limiter) is compared with Choose; the          *)
+(* description, burst and period of the limiter) is compared with Choose; the *)
 (* transcription's prediction names the class of a deviation.               *)
 (*                                                                          *)
 (* Part 2, enforcement. The token bucket is part of the cached limiter       *)
@@ -38,7 +38,7 @@
 (* zero and no-limit rules) so that histories which mix requests with       *)
 (* Set* / SetMembers / AddNode actions empty the bucket; Warm starts every   *)
 (* history with Request(a1,h1), AddNode(a1). The real code is judged by      *)
-(* RateLimitTrace.tla (InstOK below) on the recorded replays of these        *)
+(* RateLimitTrace.tla (WindowOK below) on the recorded replays of these      *)
 (* histories and on recorded bursts, with the harness clock read before and  *)
 (* after every call.                                                         *)
 EXTENDS Integers, Sequences, FiniteSets, TLC, Json
